@@ -378,7 +378,7 @@ def rule_R33_lift_nested_fns(text, log, label):
             while j < end and toks[j].start < last:
                 j += 1
             continue
-        if t.kind == 'id' and t.text in ('struct', 'impl') and toks[j - 1].kind == 'punct' and toks[j - 1].text in ('{', '}', ';'):
+        if t.kind == 'id' and t.text in ('struct', 'impl', 'enum') and toks[j - 1].kind == 'punct' and toks[j - 1].text in ('{', '}', ';'):
             # nested type definition / impl block: find its body brace (or the `;` of a unit struct)
             k = j + 1
             while k < end and not (toks[k].kind == 'punct' and toks[k].text in ('{', ';')):
